@@ -94,7 +94,19 @@ def run_shard(rec, tier, seed, shard, nshards):
 
         def score(self, plates, distance_matrix, samples, rng, progress_bar):
             self.calls.append({int(k): tuple(int(i) for i in np.flatnonzero(np.asarray(v.selection_vector))) for k, v in plates.items()})
-            return {k: self.table[int(k)] for k in plates}
+            # Scorer.score returns a MAPPING from plate id to score: the order in which a scorer lists the plates is its
+            # own business (largest plate first, results collected from workers, ...)
+            keys = list(plates)
+            self.order = (getattr(self, "order", -1) + 1) % 4
+            if self.order == 1:
+                keys = keys[::-1]
+            elif self.order == 2:
+                keys = sorted(keys, key=lambda k: (-int(np.count_nonzero(plates[k].selection_vector)), -int(k)))
+            elif self.order == 3:
+                keys = [keys[i] for i in np.random.default_rng(len(self.calls)).permutation(len(keys))]
+            if keys != list(plates):
+                self.reordered = getattr(self, "reordered", 0) + 1
+            return {k: self.table[int(k)] for k in keys}
 
     class RecPolicy(PlatePolicy):
         def __init__(self, allow):
@@ -178,6 +190,7 @@ def run_shard(rec, tier, seed, shard, nshards):
                 scored.extend(call.keys())
             rec.count("coverage_checks")
             rec.check([kit.array_hash(x) for x in (screen.observations, screen.observation_mask, screen.plate_names, screen.plate_ids, screen.treatment_ids, screen.sample_ids)] == screen_fp, "C06/score_chunk/screen-mutated", "score_chunk changed the screen", w)
+            rec.count("scorer_results_listed_in_another_order", getattr(scorer, "reordered", 0))
             rec.check(len(scorer.calls) == n_chunks, "C06/coverage/scorer-call-count", lambda: "scorer called %d times for %d chunks" % (len(scorer.calls), n_chunks), w)
             rec.check(sorted(scored) == cand, "C06/coverage/not-each-candidate-once", lambda: "scored ids %r across chunks, candidates are %r (unobserved %r, batch %r)" % (sorted(scored), cand, unobserved, batch), w)
             rec.check(not (set(scored) & observed), "C06/coverage/observed-plate-scored", lambda: "observed plates %r were handed to the scorer" % sorted(set(scored) & observed), w)
